@@ -111,9 +111,14 @@ fn check_output(ctx: &mut Ctx, case: &Value, inp: &Input, out: &RS, weight: u64,
 fn renumberings_for(inp: &Input, tier: Tier) -> Vec<(String, Vec<usize>)> {
     let all = systematic_renumberings(inp.s.n);
     if tier.is_thorough() {
+        if inp.name.contains("the dual of corpus") {
+            // (all 9 renumberings of the 15 duals at bound 1 take 26 minutes on 16 cores and showed nothing)
+            return all.into_iter().filter(|(n, _)| ["identity", "reverse", "shuffle-in"].contains(&n.as_str())).collect();
+        }
         return all;
     }
-    let keep: &[&str] = if inp.corpus || inp.ptc { &["identity", "reverse"] } else { &["identity", "shuffle-in"] };
+    // (quick tier: the duals of the corpus in the numbering the crate produces only)
+    let keep: &[&str] = if inp.name.contains("the dual of corpus") { &["identity"] } else if inp.corpus || inp.ptc { &["identity", "reverse"] } else { &["identity", "shuffle-in"] };
     all.into_iter().filter(|(n, _)| keep.contains(&n.as_str())).collect()
 }
 
